@@ -4,7 +4,7 @@ name, so the channel can place faults whose post-condition is guaranteed-broken.
 
 A document is built from pieces; `Doc.text` is the text, `Doc.spans` a list of
 (kind, start, end) with kind in
-    header ver str uri esc lopen lclose dopen dclose gopen gclose name
+    header ver str uri esc lopen lclose dopen dclose gopen gclose name date time
 """
 
 
@@ -53,9 +53,12 @@ def gen_scalar(r, d, v3, depth=0):
             kinds += ['grid']
     k = r.choice(kinds)
     if k == 'plain':
-        d.emit(r.choice(PLAIN))
+        p = r.choice(PLAIN)
+        d.emit(p, 'date' if p[:4].isdigit() and p[4:5] == '-' else 'time' if p[2:3] == ':' and p[:2].isdigit() else None)
     elif k == 'dt':
-        d.emit(r.choice(TZ))
+        p = r.choice(TZ)
+        start = d.emit(p)
+        d.spans.append(('date', start, start + 10))      # the date part of a date-time
     elif k == 'str':
         emit_str(r, d)
     elif k == 'uri':
